@@ -364,11 +364,35 @@ static void op_globals(const McArg *a) {
     mc_nontrivial();
 }
 
-enum { OP_HDR, OP_WIN, OP_DEV, OP_PROD, OP_CNT, OP_CLOSURE, OP_GLOBALS };
+// decode(x): x is a hostile 64-bit value re-labelled as a directed edge (mode 2, direction a[1]) or vertex (mode 4, number a[1]). Whenever the
+// library itself accepts it (isValidDirectedEdge / isValidVertex), every cell it decodes to must satisfy the predicate
+static void op_decode(const McArg *a) {
+    uint64_t x = a[0].u, o = 0, od[2] = {0, 0};
+    int sub = (int)a[1].i;
+    g_cl_fail = 0;
+    uint64_t e = (x & ~(((uint64_t)15 << 59) | ((uint64_t)7 << 56))) | ((uint64_t)2 << 59) | ((uint64_t)(sub & 7) << 56);
+    mc_trans(1);
+    if (isValidDirectedEdge(e)) {
+        mc_nontrivial();
+        if (CALL(getDirectedEdgeOrigin(e, &o)) == 0) chk_out("getDirectedEdgeOrigin(accepted edge)", e, o, -1);
+        if (CALL(getDirectedEdgeDestination(e, &o)) == 0) chk_out("getDirectedEdgeDestination(accepted edge)", e, o, -1);
+        if (CALL(directedEdgeToCells(e, od)) == 0) chk_arr("directedEdgeToCells(accepted edge)", e, od, 2, -1);
+    }
+    uint64_t v = (x & ~(((uint64_t)15 << 59) | ((uint64_t)7 << 56))) | ((uint64_t)4 << 59) | ((uint64_t)(sub & 7) << 56);
+    mc_trans(1);
+    if (isValidVertex(v)) {
+        LatLng g;
+        mc_nontrivial();
+        uint64_t owner = (v & ~(((uint64_t)15 << 59) | ((uint64_t)7 << 56))) | ((uint64_t)1 << 59);
+        chk_out("owner cell of an accepted vertex", v, owner, -1);
+        if (CALL(vertexToLatLng(v, &g))) mc_fail("vertexToLatLng fails on %" PRIx64 " which isValidVertex accepts", v);
+    }
+}
+enum { OP_HDR, OP_WIN, OP_DEV, OP_PROD, OP_CNT, OP_CLOSURE, OP_GLOBALS, OP_DECODE };
 const McOp MC_OPS[] = {{"hdr", "h", op_hdr},          {"win", "iiiii", op_win},   {"dev", "hiii", op_dev},
                        {"prod", "iiii", op_prod},     {"cnt", "ii", op_cnt},      {"closure", "h", op_closure},
-                       {"globals", "", op_globals}};
-const int MC_NOPS = 7;
+                       {"globals", "", op_globals},   {"decode", "hi", op_decode}};
+const int MC_NOPS = 8;
 
 static void ph_A(void *u) {
     for (uint64_t t = 0; t < (1u << 19); t++) {
@@ -443,6 +467,14 @@ static void ph_closure(void *u) {
     }
     if (mc_wid == 0) MC_RUN(OP_GLOBALS, H(0));
 }
+static U64Vec g_idx;
+static void ph_decode(void *u) {
+    for (size_t i = 0; i < g_idx.n; i++) {
+        if (!mc_mine(i)) continue;
+        if ((i & 255) == 0 && mc_expired()) return;
+        for (int sub = 0; sub < 8; sub++) MC_RUN(OP_DECODE, H(g_idx.v[i]), I(sub));
+    }
+}
 
 int main(int argc, char **argv) {
     mc_init(argc, argv);
@@ -462,6 +494,8 @@ int main(int argc, char **argv) {
     for (int r = 3; r <= 15; r++) dom_fine(r, mc_thorough ? 1 : 2, &g_dom);
     uv_sortuniq(&g_dom);
     mc_phase("closure driver", ph_closure, NULL);
+    dom_idx(mc_thorough ? 1 : 0, &g_idx);
+    mc_phase("closure of accepted edge / vertex indexes over the hostile alphabet", ph_decode, NULL);
     if (nalph) mc_phase("D reduced-alphabet products", ph_D, &nalph);
     return mc_finish();
 }
